@@ -68,6 +68,22 @@ fn bridge_de<T: DeserializeOwned + Serialize>(b: &[u8]) -> String {
     }
 }
 
+/// `twice <type> <hex>`: ONE `Deserializer` over the bytes: the value is read, the decoder rewound through `decoder_mut().set_position(0)`, the value read
+/// again (and once more after a rewind to 0 from a failed / partial first pass): each pass answers what a fresh deserializer answers.
+fn op_twice<T: DeserializeOwned + Serialize>(a: &str) -> String {
+    let b = match sx::unhex(a) { Some(b) => b, None => return "bad-op".into() };
+    let fresh = bridge_de::<T>(&b);
+    let mut d = minicbor_serde::Deserializer::new(&b);
+    for pass in 0 .. 3 {
+        d.decoder_mut().set_position(0);
+        let r = <T as serde::Deserialize>::deserialize(&mut d);
+        let pos = d.decoder().position();
+        let got = match r { Ok(v) => format!("ok {} {}", show(&v), pos), Err(e) => format!("err {} {}", class(&e.to_string()), pos) };
+        if got != fresh { return format!("pass {} differs: {} | fresh: {}", pass, got, fresh) }
+    }
+    format!("same | {}", fresh)
+}
+
 fn native_de<T: for<'b> minicbor::Decode<'b, ()> + Serialize>(b: &[u8]) -> String {
     let mut d = minicbor::Decoder::new(b);
     let r: Result<T, _> = d.decode();
@@ -344,6 +360,7 @@ fn dispatch(w: &[&str]) -> String {
         "de" => serde_types!(t, op_de, a),
         "rt" => serde_types!(t, op_rt, a),
         "rt3" => serde_types!(t, op_rt3, a),
+        "twice" => serde_types!(t, op_twice, a),
         "iser" => shared_types!(t, op_iser, a, "bad-op".to_string()),
         "ide" => shared_types!(t, op_ide, a, "bad-op".to_string()),
         _ => "bad-op".into()
